@@ -61,9 +61,8 @@ def pattern_entries(prog, rep, entries, rule="PAT", not_charged=(), allow_raw=()
             for (qq, line, msg) in P.unknown[unk0:]:
                 rep.unk(rule + ".entry", {"file": f.module.relpath, "line": line, "function": qq, "construct": msg}, msg)
         collapsed = PT.COLLAPSED[col0:]
-        if collapsed:
-            approx.update(new)
-        if bad_ret and collapsed:
+        ret_through_object = ret is not None and any(p_[0] == "$collapsed" for p_ in PT.prov_of(ret))
+        if bad_ret and collapsed and (ret_through_object or lvl == PT.RAW):
             # the level of the result went through an object that holds the raw matrix next to derived data (a working-state class): the domain joins
             # an object's attributes when the object is used as a whole, so "raw" is an over-approximation here, not a finding
             rep.unk(rule + ".result", fwhere(f), "the result of %s passes through an object (%s) that also holds the raw matrix; the zero-pattern domain does not keep "
@@ -71,7 +70,7 @@ def pattern_entries(prog, rep, entries, rule="PAT", not_charged=(), allow_raw=()
         elif bad_ret and lvl == PT.RAW:
             rep.bad(rule + ".result", fwhere(f), "result of %s carries raw weights (must be determined by the zero pattern)" % f.name)
         elif bad_ret:
-            prov = ["%s:%s `%s`" % (x[0].rsplit(".", 1)[-1], x[1], x[2][:60]) for x in sorted(PT.prov_of(ret), key=str)[:2]] if ret is not None else []
+            prov = ["%s:%s `%s`" % (x[0].rsplit(".", 1)[-1], x[1], x[2][:60]) for x in sorted((y for y in PT.prov_of(ret) if y[0] != "$collapsed"), key=str)[:2]] if ret is not None else []
             rep.bad(rule + ".result", fwhere(f), "result of %s is computed by value-sensitive arithmetic on raw weights (sums / products / ordered comparisons of "
                     "entries), not from the zero pattern%s" % (f.name, (": " + "; ".join(str(x) for x in prov)) if prov else ""))
         elif not bad_ret:
@@ -80,7 +79,7 @@ def pattern_entries(prog, rep, entries, rule="PAT", not_charged=(), allow_raw=()
     for k, v in P.violations.items():
         if v["function"] in not_charged:
             continue
-        if k in approx:
+        if v.get("approx"):
             rep.unk(rule + ".value-sensitive", {"file": v["file"], "line": v["line"], "function": v["function"], "construct": v["construct"]},
                     "a decision may depend on raw weights, but the value went through an object whose attributes the zero-pattern domain joins: not decided (%s)" % "; ".join(v["sinks"][:2]))
             continue
